@@ -538,6 +538,22 @@ func (x *Exec) copyBuiltin(st *State, fr *Frame, ci *ssa.Call, dst, src SV) SV {
 		srcLen = src.l[2]
 	}
 	n := Ite(BvCmp("bvslt", srcLen, dst.l[2]), srcLen, dst.l[2])
+	if !n.isConst() && (srcLen.isConst() != dst.l[2].isConst()) {
+		// one length is a constant: if the path condition bounds the other one from below by it, the
+		// number of elements copied is that constant (and the copy can be unrolled)
+		c, o := srcLen, dst.l[2]
+		if !c.isConst() {
+			c, o = o, c
+		}
+		var conj []*Term
+		for _, f := range st.pc {
+			flattenConj(f, &conj)
+		}
+		bc, _ := collectBounds(conj)
+		if iv := bc.interval(o); iv != nil && iv.lo.Cmp(signed64(c.c)) >= 0 {
+			n = c
+		}
+	}
 	if n.isConst() && n.c.Int64() <= 64 && !srcIsString {
 		cnt := n.c.Int64()
 		vals := make([]SV, cnt)
